@@ -152,8 +152,21 @@ MembersC20(ev) ==
      \cup {[prop |-> "C20", eco |-> ev.eco, why |-> "panic", text |-> ev.panics[i], a |-> "", b |-> "", c |-> "",
              ina |-> FALSE, inb |-> FALSE, known |-> ""] : i \in 1..Len(ev.panics)}
 
+(* C03: plain numeric tuples are accepted and order as integer tuples; a        *)
+(* pre-release marker makes a version older, a post-release marker newer.      *)
+(* A marker spelling the parser rejects is skipped (counted by the harness).   *)
+CmpC03(ev) ==
+  LET rec(why) == {[prop |-> "C03", eco |-> ev.eco, why |-> why, kind |-> ev.kind, a |-> ev.a, b |-> ev.b,
+                    got |-> ev.got, want |-> ev.want, known |-> ""]} IN
+  IF ev.panic # "" THEN rec("panic")
+  ELSE IF ev.kind = "tuple" /\ ~(ev.acca /\ ev.accb) THEN rec("plain-version-rejected")
+  ELSE IF ~(ev.acca /\ ev.accb) THEN {}
+  ELSE IF ev.got # ev.want \/ ev.rev # -ev.want THEN rec("order")
+  ELSE {}
+
 Judge(ev) ==
   CASE ev.k = "matrix" /\ Prop = "C01" -> MatrixC01(ev)
+    [] ev.k = "cmp" /\ Prop = "C03" -> CmpC03(ev)
     [] ev.k = "members" /\ Prop = "C20" -> MembersC20(ev)
     [] ev.k = "short" /\ Prop = "C05" -> ShortC05(ev)
     [] ev.k = "range" /\ Prop = "C02" -> RangeC02(ev)
